@@ -239,6 +239,8 @@ func readDirTree(root string, prev *dirTree) *dirTree {
 	return t
 }
 
+func (t *dirTree) empty() bool { return len(t.dirs) == 0 && len(t.files) == 0 }
+
 func (t *dirTree) sig() uint64 {
 	h := fnv.New64a()
 	for _, d := range t.dirs {
